@@ -177,6 +177,10 @@ Features(p) ==
     \* an algorithm with several inputs and an ancestor at least three edges away that no shorter chain reaches
     \cup (IF \E e \in Chained(E, 3) : e \notin E \cup Chained(E, 2) /\ Cardinality(D_Parents(p, e[2])) > 1
           THEN {"deep-join"} ELSE {})
+    \* one consumer of two producers with the same short name and a common state vector / value name
+    \cup (IF \E c \in AlgsOf(p) : \E a, b \in D_Parents(p, c) :
+               a # b /\ p.nm[a] = p.nm[b] /\ p.vals[a] \cap p.vals[b] # {}
+          THEN {"same-named-producers"} ELSE {})
     \* ... or a descendant of a join whose branches end in different roots two edges further up
     \cup (IF \E j \in AlgsOf(p) : \E b, c \in D_Parents(p, j) :
                b # c /\ D_Anc(rel, b) # {} /\ D_Anc(rel, c) # {} /\ D_Anc(rel, b) \cap D_Anc(rel, c) = {} /\ D_Children(p, j) # {}
